@@ -43,6 +43,11 @@ _KINDS = {
 }
 
 
+class _NamedSource(Source):
+  def __repr__(self):
+    return 'NamedSource(%s, %s, %s, %s)' % (self.method, self.service, self.endpoint, self.client_id)
+
+
 class TV(VarzBase):
   _VARZ_BASE_NAME = 'vf.c18'
   _VARZ = dict(_KINDS)
@@ -63,7 +68,7 @@ def strategy(tier):
       'static': st.booleans(),
       # how the Source is built (all fields to the constructor, or some assigned afterwards, before first use), and
       # whether another Varz block with the same names is defined first (a second VarzBase subclass declaring them)
-      'build': st.sampled_from(['ctor', 'ctor', 'assign', 'assign_all']),
+      'build': st.sampled_from(['ctor', 'ctor', 'ctor', 'assign', 'assign_all', 'subclass']),
       'redefine': st.sampled_from([False] * 11 + [True]),
   })
   call = st.fixed_dictionaries({'m': st.integers(1, 3), 'e': st.integers(1, 3), 'ok': st.booleans(), 'd': st.integers(0, 1)})
@@ -212,6 +217,10 @@ def execute(plan):
         meth, ep = METHODS[u['m']], ENDPOINTS[u['e']]
       if u.get('build', 'ctor') == 'ctor':
         src = Source(method=fresh(meth), service=fresh(svc), endpoint=fresh(ep), client_id=fresh(cl))
+      elif u['build'] == 'subclass':
+        # an application's own subclass of Source (adds a repr, nothing else) next to the plain ones the library builds
+        src = _NamedSource(method=fresh(meth), service=fresh(svc), endpoint=fresh(ep), client_id=fresh(cl))
+        flags.add('source_subclass')
       elif u['build'] == 'assign':
         src = Source(service=fresh(svc), client_id=fresh(cl))
         src.method = fresh(meth)
